@@ -23,6 +23,7 @@ def apply() -> None:
     _e5_format()
     _e8_no_shortcircuit()
     _e9_concrete_dict_keys()
+    _e10_concat_eq()
     install_stats()
 
 
@@ -159,6 +160,55 @@ def _e9_concrete_dict_keys() -> None:
         return orig(self, frame, codeobj, codenum)
 
     oi.SymbolicSubscriptInterceptor.trace_op = trace_op
+
+
+# ---------------------------------------------------------------------------------------------
+# E10: SequenceConcatenation.__eq__ compares its halves with slices of the other sequence using plain `==`;
+# when one side is a concrete list of code points and the other a concrete tuple (e.g. an empty slice) Python
+# answers False ([] != ()), so `("t:" + (p + a + ""))[2:] == p + u` was False while the reflected comparison
+# was True.  Compare plain list/tuple halves element-wise instead.
+def _e10_concat_eq() -> None:
+    from crosshair import simplestructs as ss
+    from crosshair.tracers import NoTracing
+
+    from crosshair.libimpl.builtinslib import SymbolicList
+
+    def norm(x):
+        # a SymbolicList models a Python *list* (never equal to a tuple); inside a string's code point
+        # sequence it is just a sequence: compare its (immutable) contents
+        while isinstance(x, SymbolicList):
+            x = x.inner
+        return x
+
+    def seq_eq(a, b):
+        with NoTracing():
+            a, b = norm(a), norm(b)
+            a_plain = type(a) in (list, tuple)
+            b_plain = type(b) in (list, tuple)
+        if a_plain and b_plain:
+            if len(a) != len(b):
+                return False
+            for x, y in zip(a, b):
+                if x is y:
+                    continue
+                if x != y:
+                    return False
+            return True
+        if a_plain:
+            return b == a
+        return a == b
+
+    def __eq__(self, other):
+        with NoTracing():
+            if not hasattr(other, "__len__"):
+                return False
+            first, second = self._first, self._second
+        if self.__len__() != other.__len__():
+            return False
+        firstlen = first.__len__()
+        return seq_eq(first, other[:firstlen]) and seq_eq(second, other[firstlen:])
+
+    ss.SequenceConcatenation.__eq__ = __eq__
 
 
 # ---------------------------------------------------------------------------------------------
